@@ -59,6 +59,10 @@ CLAIMED['C15'] = ('fault_enumeration', 'deterministic simulation: seeded key-sto
     'For each seeded history (update/delete/delete_all/get/get_all/get_resolving_keys over 3 peers x 3 namespaces + a default-namespace instance on one file, all PairingKeys field-presence combinations) a fault-free run is compared operation by operation with a reference map (replace and overlay update semantics side by side, default-namespace rule from the class docstring), then the history is re-run once per file-system step of every mutating operation with a process crash before/after that step or EIO/ENOSPC before it: the file must parse and equal the complete previous or complete new state of all namespaces, and the rest of the history must still behave like the model on the surviving tree. The fault space per history is enumerated completely; histories are sampled.',
     'Trusted: SimFS process-crash model (flushed writes survive, user-space buffers do not, rename atomic, inode semantics); power-loss semantics are not claimed.', 'DESIGN.md §5 C15')
 
+CLAIMED['C13'] = ('exploration', 'deterministic simulation: seeded pairing configurations, user answers with delays, in-flight SMP corruption, reconnection in both roles; association-model table enumerated',
+    'All 100 cells of the association-model table (5x5 IO capabilities x legacy/SC x MITM) are walked in every tier; seeded search over SC/MITM/bonding and 4-bit key-distribution masks per side, central- or peripheral-initiated pairing, user answers (reject, wrong passkey, compare no, confirm no, delays, passkey 000000), one SMP PDU corrupted in flight, a second pairing on the same connection, then reconnection in the same and in swapped roles with encrypt(). Oracle: pair() and the responder event both conclude, both succeed or both fail, link encrypted, association model and display/input roles equal the transcribed Table 2.8, key authenticated flags <=> passkey/numeric comparison, SC LTKs equal, legacy copies equal what the peer generated, no keys after a forced failure, and on reconnection the key in LE Enable Encryption equals the key in the peripheral Long Term Key Request Reply. Sampling, not proof.',
+    'Trusted: transcription of Table 2.8 (DESIGN.md App. C); identity address type = static random so that bonded keys are found by address; OOB and CTKD over BR/EDR not covered; LTK request event injected because the virtual controller grants encryption by itself.', 'DESIGN.md §5 C13')
+
 NOT_YET = {}
 
 
